@@ -52,6 +52,7 @@ extern void verif_set_ienv(int ispec, int_t v);
 #define DECL_MEM(P) \
   extern void *P##user_malloc(int_t, int_t); \
   extern void P##user_free(int_t, int_t); \
+  extern void p##P##gstrf_verif_stack(long long v[5]);   /* hook (SLU_MT_VERIF): read-only accessor of the user stack */ \
   extern ExpHeader *P##expanders;
 DECL_MAIN(s, float)
 DECL_MAIN(c, float)
@@ -68,7 +69,7 @@ typedef struct {
     char name; int rsize; int ncomp; Dtype_t dtype;
     void (*gssvx)(); void (*gssv)(); void (*gstrf)(); void (*gstrs)();
     int_t (*qspace)(); float (*memuse)(const int_t, const int_t, const int_t);
-    void *(*umalloc)(int_t, int_t); void (*ufree)(int_t, int_t);
+    void *(*umalloc)(int_t, int_t); void (*ufree)(int_t, int_t); void (*vstack)(long long *);
     int_t (*workinit)(); void (*workfree)();
     ExpHeader **expanders;
 } prec_t;
@@ -81,7 +82,7 @@ static void init_prec(void)
     PREC[i].gssvx = (void (*)()) p##P##gssvx; PREC[i].gssv = (void (*)()) p##P##gssv; \
     PREC[i].gstrf = (void (*)()) p##P##gstrf; PREC[i].gstrs = (void (*)()) P##gstrs; \
     PREC[i].qspace = (int_t (*)()) superlu_##P##QuerySpace; PREC[i].memuse = p##P##gstrf_memory_use; \
-    PREC[i].umalloc = P##user_malloc; PREC[i].ufree = P##user_free; \
+    PREC[i].umalloc = P##user_malloc; PREC[i].ufree = P##user_free; PREC[i].vstack = p##P##gstrf_verif_stack; \
     PREC[i].workinit = (int_t (*)()) p##P##gstrf_WorkInit; PREC[i].workfree = (void (*)()) p##P##gstrf_WorkFree; \
     PREC[i].expanders = &P##expanders;
     SETP(0, s, 4, 1, SLU_S)
@@ -320,8 +321,13 @@ static void pr_state(int p)
     void *h, *t; long avail; const char *hs = "raw", *ts = "raw"; long ho = 0, to = 0; int hslot = -1, tslot = -1;
     ExpHeader *e = *P->expanders;
     ndim10 = (long) P->memuse(0, 0, 0);
-    h = P->umalloc(0, 0 /* HEAD */);
-    t = P->umalloc(0, 1 /* TAIL */);
+    /* head and tail of the user stack: read through the hook.  (They used to be probed with ?user_malloc(0, end); since the
+       tail-end branch of ?user_malloc aligns its block, a zero-byte request at the tail is no longer neutral.)  A probe of 0
+       bytes at the head still tells whether the allocator would refuse (StackFull(0)): NULL is reported as before. */
+    {   long long v[5]; P->vstack(v);
+        h = P->umalloc(0, 0 /* HEAD */);
+        t = h ? (void *) ((char *) (size_t) v[4] + v[3]) : NULL;
+    }
     /* largest x with x + used < size */
     avail = -1;
     if (h) {
